@@ -8,7 +8,7 @@
     API event is bound to one spec action with all values compared; all invariants in every state.
 (V1) API oracles in the driver on the recorded order (sum / union / last value / never zero / no
     overlap); (V2) a source at rest with pending data = a merge never delivered (exit 71)."""
-import os, re, json, time
+import os, re, json, time, threading
 from concurrent.futures import ThreadPoolExecutor
 from vlib import *
 
@@ -21,7 +21,11 @@ MUTANTS = [
     ("wakeup_nodirty", '"add"', '"global"', '"c1"', '"w1"', 2, 0, "AddConserved NoStrand"),
     ("no_drain_lock", '"add"', '"concurrent"', '"c1"', '"w1", "w2"', 3, 1, "NoReentry"),
     ("deliver_zero", '"replace"', '"global"', '"c1"', '"w1"', 2, 0, "NeverZero"),
+    ("merge_load_store", '"add"', '"global"', '"c1", "c2"', '"w1"', 2, 0, "AddNoExcess AddConserved NoStrand"),
 ]
+# variants of the transcription that are expected to keep the property (decided by TLC when a trace follows one)
+DEVS = ["no_recheck", "always_wake", "always_latch"]
+ALLK = '"add", "or", "replace"'
 TARGETS = ["serial", "concurrent", "global"]
 KINDS = ["add", "or", "replace"]
 
@@ -88,7 +92,9 @@ def run_mutant(m):
 def trace_cfg(mut="none"):
     if mut == "none":
         return os.path.join(SPEC, "cfg", "SourceTrace.cfg")
-    return _derive("SourceTrace.cfg", "SourceTrace_%s" % mut, {"Mut": '"%s"' % mut})
+    # under a variant only the property's own invariants are evaluated: the structural ones (who holds the
+    # lock, exact accounting) describe the transcription and fail by construction in some variants
+    return _derive("SourceTrace.cfg", "SourceTrace_%s" % mut, {"Mut": '"%s"' % mut}, invs="TypeOK " + PROP_INVS + " StopWhenAccepted")
 
 
 def context(path, k, n=5):
@@ -109,14 +115,69 @@ def context(path, k, n=5):
     return out
 
 
+_dev_verdict = {}      # variant -> what it violates / None (model-checked once per run)
+_explained = []        # variants that explained an earlier trace of this run: tried first
+_explain_lock = threading.Lock()
+
+
+def check_deviation(dev):
+    if dev not in _dev_verdict:
+        _dev_verdict[dev] = _check_deviation(dev)
+    return _dev_verdict[dev]
+
+
+def _check_deviation(dev):
+    """Model-check a variant of the transcription the code was seen to follow: safety with 2 mergers + 1 drainer,
+    3 merges, a suspension window, handler merges, every kind, re-enqueueing and retrying targets; liveness from an
+    inactive source.  Returns the name of what it violates, or None."""
+    safe = _derive("Source_q1.cfg", "dev_%s_safe" % dev, {"Kinds": "{%s}" % ALLK, "Targets": '{"global", "concurrent"}', "Mut": '"%s"' % dev})
+    r = tlc_must_pass("deviation " + dev, "Source.tla", safe, timeout=1800, workers=8, metaname="C15_dev_%s" % dev)
+    if r.violated:
+        return r.violated
+    live = _derive("Source_q4.cfg", "dev_%s_live" % dev, {"InitActive": "FALSE", "Mut": '"%s"' % dev})
+    r = tlc_must_pass("deviation " + dev + " (liveness)", "Source.tla", live, timeout=1800, workers=8, metaname="C15_devl_%s" % dev)
+    return r.violated
+
+
 def explain_rejection(tr, nt, tag):
-    """A rejected trace: does the code follow one of the spec mutants TLC refutes?"""
-    for m in MUTANTS:
+    """A rejected trace: does the code follow a known variant of the transcription?  Returns (harmful, text) or None.
+    A variant TLC refutes makes the rejection a violation; a variant that keeps every invariant and the liveness
+    property in the reference bounds is drift."""
+    with _explain_lock:
+        res = _explain_rejection(tr, nt, tag)
+    return res
+
+
+def _explain_rejection(tr, nt, tag):
+    first = [x for x in _explained]
+    muts = sorted(MUTANTS, key=lambda m: 0 if m[0] in first else 1)
+    devs = sorted(DEVS, key=lambda d: 0 if d in first else 1)
+    if first and first[0] in DEVS:
+        r = _try_devs(tr, nt, tag, devs[:1])
+        if r:
+            return r
+    for m in muts:
         r = validate_trace("SourceTrace.tla", trace_cfg(m[0]), tr, nthreads=nt, metaname="C15_trm_%s_%s" % (tag, m[0]), timeout=900)
         if r.accepted or (r.violated and r.violated != "StopWhenAccepted"):
-            return "the code behaves like spec mutant '%s' (which TLC refutes: %s)%s" % (
+            _explained.append(m[0])
+            return True, "the code behaves like spec variant '%s' (which TLC refutes: %s)%s" % (
                 m[0], m[7] if not r.violated else r.violated,
                 "" if r.accepted else ": invariant %s fails on this very trace" % r.violated)
+    return _try_devs(tr, nt, tag, devs)
+
+
+def _try_devs(tr, nt, tag, devs):
+    for dev in devs:
+        r = validate_trace("SourceTrace.tla", trace_cfg(dev), tr, nthreads=nt, metaname="C15_trd_%s_%s" % (tag, dev), timeout=900)
+        if r.violated and r.violated != "StopWhenAccepted":
+            _explained.append(dev)
+            return True, "the code behaves like spec variant '%s' and invariant %s fails on this very trace" % (dev, r.violated)
+        if r.accepted:
+            _explained.append(dev)
+            bad = check_deviation(dev)
+            if bad:
+                return True, "the code behaves like spec variant '%s', which TLC refutes (%s)" % (dev, bad)
+            return False, "the code follows spec variant '%s' instead of the transcription; TLC finds that variant safe and live in the reference bounds" % dev
     return None
 
 
@@ -155,9 +216,15 @@ def _run_trace(job):
         res["broken"] = "driver wrote no trace (%s) rc=%d %s" % (desc, rc, err[-400:])
         return res
     nthr = count_threads(tr)
+    # once an earlier trace of this run was found to follow a variant TLC proved safe, later ones are tried against it first
+    safe = [d for d in _explained if d in DEVS and _dev_verdict.get(d, "?") is None]
+    if safe and rc == 0:
+        r = validate_trace("SourceTrace.tla", trace_cfg(safe[0]), tr, nthreads=nthr, metaname="C15_trv%d" % i, timeout=900)
+        if r.accepted:
+            res["tlc"] = r
+            res["drift"] = "the code follows spec variant '%s' instead of the transcription; TLC finds that variant safe and live in the reference bounds" % safe[0]
+            return res
     r = validate_trace("SourceTrace.tla", trace_cfg(), tr, nthreads=nthr, metaname="C15_tr%d" % i, timeout=900)
-    if not r.accepted and rc == 0:
-        r = validate_trace("SourceTrace.tla", trace_cfg(), tr, nthreads=nthr, metaname="C15_tr%db" % i, timeout=900)   # reproduce
     res["tlc"] = r
     k = r.maxl or 1
     if rc in (2, 70, 71):
@@ -174,8 +241,11 @@ def _run_trace(job):
         else:
             why = "no spec action explains record %d" % k
             m = None if _found else explain_rejection(tr, nthr, str(i))
+            if m and not m[0]:
+                res["drift"] = m[1] + " (first record that differs: #%d %s)" % (k, " | ".join(context(r.trace_with_header, k, 1)))
+                return res
             if m:
-                why += "; " + m
+                why += "; " + m[1]
         res["viol"] = ("trace rejected (%s): %s; last records: %s" % (desc, why, " | ".join(context(r.trace_with_header, k))), "rejected")
     return res
 
@@ -223,6 +293,8 @@ def run(tier, seed):
         v.notes.setdefault("spec_mutants_refuted", []).append({"mutant": name, "by": r.violated, "states": r.distinct})
     # ---- traces
     del _found[:]
+    del _explained[:]
+    _dev_verdict.clear()
     for res in results_t:
         if res.get("skipped"):
             v.notes["driver_runs_skipped_after_first_violation"] = v.notes.get("driver_runs_skipped_after_first_violation", 0) + 1
@@ -239,6 +311,10 @@ def run(tier, seed):
                     f.write(json.dumps({"e": "OracleFail", "what": text[:600]}) + "\n")
             v.violation(text, p)
             continue
+        if res.get("drift"):
+            if not any(res["drift"][:60] == x[:60] for x in v.drift):
+                v.drift.append(res["drift"])
+            v.notes["traces_following_a_safe_variant"] = v.notes.get("traces_following_a_safe_variant", 0) + 1
         v.traces += 1
         v.states += r.distinct
         v.transitions += r.generated
